@@ -162,7 +162,7 @@ def showArr (h rc tl th tli : Nat) (keys : List Value) (rendered : List String) 
     | _, _ => []
   let ps := ((pairs keys rendered).toArray.qsort fun a b => a.2.1 < b.2.1).toList
   let show1 := fun (e : Value × String × String) =>
-    (if foundAfterLoad (fun _ => 0) (fun o => o % 6 + 1) tl e.1 then "" else "lost:") ++ e.2.1 ++ " " ++ e.2.2
+    (if foundAfterLoad Morfuse.Gen.Archive.arrayRefiled (fun _ => 0) (fun o => o % 6 + 1) tl e.1 then "" else "lost:") ++ e.2.1 ++ " " ++ e.2.2
   s!"arr {h} {rc} {tl} {th} {tli} {ps.length}" ++ (if ps.isEmpty then "" else " " ++ " ".intercalate (ps.map show1))
 
 mutual
